@@ -21,7 +21,7 @@ func ForArch(arch string) *Sizes {
 	wordSize := int64(8)
 	maxAlign := int64(8)
 	switch build.Default.GOARCH {
-	case "386", "arm":
+	case "386", "arm", "mips", "mipsle":
 		wordSize, maxAlign = 4, 4
 	case "amd64p32":
 		wordSize = 4
